@@ -109,7 +109,7 @@ variable {π : Type}
 what `apply` made of it. -/
 theorem cascade_self {apply : World α → Pair → π → Except Exc (World α × Option α × Option π)}
     (hl : Local apply) {d : Nat} {w w1 w' : World α} {p : Pair} {x : π} {ret r1 : Option α} {y : Option π}
-    (hp : p ∉ w.locked) (hnd : (visit w.edges (d + 1) w.locked p).Nodup)
+    (hnd : (visit w.edges (d + 1) w.locked p).Nodup)
     (happ : apply w p x = .ok (w1, r1, y)) (hc : cascade apply (d + 1) w p x = .ok (w', ret)) :
     SameAt p w1 w' := by
   obtain ⟨w1', pay, happ', hshape⟩ := cascade_succ_ok hc
@@ -168,13 +168,13 @@ theorem mutate_converges (E : Env α) (w : World α) (p q : Pair) (op : Op α) (
   rw [hres]
   refine ⟨rfl, rfl, ?_, ?_⟩
   · -- p
-    have := cascade_self (local_mutate E) (by simp [hL]) (by rw [hL]; exact hnr) happ hc
+    have := cascade_self (local_mutate E) (by rw [hL]; exact hnr) happ hc
     simp only
     rw [this.1]; simp [upd]
   · simp only
     by_cases hqp : q = p
     · subst hqp
-      have := cascade_self (local_mutate E) (by simp [hL]) (by rw [hL]; exact hnr) happ hc
+      have := cascade_self (local_mutate E) (by rw [hL]; exact hnr) happ hc
       rw [this.1]; simp [upd]
     -- q ≠ p: split the loop at q
     obtain ⟨w1, pay, happ', hshape⟩ := cascade_succ_ok hc
@@ -252,7 +252,7 @@ theorem mutate_converges (E : Env α) (w : World α) (p q : Pair) (op : Op α) (
       obtain ⟨wq, rq, payq, happq, hwq⟩ := happq
       obtain ⟨B, hcq⟩ := cascade_succ_of_apply (d := d) happq
       have hBq : B.val q = .l o.items := by
-        have := cascade_self (local_mutate E) (by rw [hAl]; exact hqL) (by rw [hAe, hAl]; exact hndq) happq hcq
+        have := cascade_self (local_mutate E) (by rw [hAe, hAl]; exact hndq) happq hcq
         rw [this.1]; exact hwq
       have hBt := hframe A q B rq (by rw [hAl]; exact hqL) hcq
       have hstepq : visitPartner (cascade (applyMutate E) (d + 1)) (eventOp e) A q = B := by
